@@ -6,11 +6,32 @@ Created on Mar 29, 2016
 
 import os
 import time
+from contextlib import contextmanager
 
 from lemoncheesecake.helpers.orderedset import OrderedSet
 from lemoncheesecake.exceptions import LemoncheesecakeException
 
 _NEGATION_FLAGS = "-^~"
+
+
+@contextmanager
+def open_for_atomic_write(filename):
+    """
+    Open a temporary file located beside 'filename' for writing and move it over 'filename'
+    once it has been completely written and closed, so that 'filename' always holds either its previous
+    or its new complete content, even if the process dies or the file is read while it is being saved.
+    """
+    tmp_filename = "%s.%d.tmp" % (filename, os.getpid())
+    try:
+        with open(tmp_filename, "w") as fh:
+            yield fh
+        os.replace(tmp_filename, filename)
+    except BaseException:
+        try:
+            os.unlink(tmp_filename)
+        except OSError:
+            pass
+        raise
 
 
 class ReportingSession:
